@@ -302,6 +302,39 @@ pub struct Case {
     pub settle: Duration,
     /// channels to close with `close_data_channel` once everything was delivered: (side, channel id)
     pub closes: Vec<(usize, u16)>,
+    /// how the run ends after everything (incl. `closes`) is done
+    pub end: End,
+}
+
+/// teardown at the end of a run
+#[derive(Clone, Copy, Debug, PartialEq)]
+pub enum End {
+    /// just stop observing
+    None,
+    /// `SctpTransport::close()` on this side
+    LocalClose(usize),
+    /// a datagram with one chunk of this type (6 ABORT, 7 SHUTDOWN, 8 SHUTDOWN-ACK, 14 SHUTDOWN-COMPLETE) handed to this side
+    Inject(usize, u8),
+}
+impl End {
+    pub fn text(&self) -> String { match self { End::None => "-".into(), End::LocalClose(s) => format!("close{}", ["A", "B"][*s]), End::Inject(s, t) => format!("inject{}{t}", ["A", "B"][*s]) } }
+    pub fn parse(t: &str) -> End {
+        if let Some(r) = t.strip_prefix("close") { return End::LocalClose(if r == "A" { 0 } else { 1 }); }
+        if let Some(r) = t.strip_prefix("inject") { let side = if r.starts_with('A') { 0 } else { 1 }; return End::Inject(side, r[1..].parse().unwrap_or(6)); }
+        End::None
+    }
+    /// the association is expected to be Closed on this side afterwards
+    pub fn closes_side(&self, side: usize) -> bool { match self { End::LocalClose(s) => *s == side, End::Inject(s, t) => *s == side && [6u8, 8, 14].contains(t), End::None => false } }
+}
+
+/// an SCTP datagram carrying one empty chunk of type `t` (correct CRC-32C; ports / tag as given)
+pub fn control_packet(src: u16, dst: u16, tag: u32, t: u8) -> Bytes {
+    let mut p = vec![];
+    p.extend_from_slice(&src.to_be_bytes()); p.extend_from_slice(&dst.to_be_bytes()); p.extend_from_slice(&tag.to_be_bytes());
+    p.extend_from_slice(&[0, 0, 0, 0]); p.extend_from_slice(&[t, 0, 0, 4]);
+    let c = crc32c::crc32c(&p).to_le_bytes();
+    p[8..12].copy_from_slice(&c);
+    Bytes::from(p)
 }
 
 #[derive(Clone, Debug)]
@@ -319,6 +352,8 @@ pub struct Outcome {
     pub send_errors: Vec<String>,
     pub elapsed_ms: u128,
     pub connected: bool,
+    /// the end action was carried out (the run did not hit its deadline before)
+    pub ended: bool,
 }
 
 fn count_msgs(ev: &[(u16, DataChannelEvent)]) -> usize {
@@ -436,6 +471,30 @@ pub async fn run_case(c: &Case, port_base: u16) -> Outcome {
         tokio::time::sleep(Duration::from_millis(1)).await;
     }
     for h in &sender_handles { h.abort(); }
+    // teardown, observed: the run loop leaves, the cleanup guard announces Close on the channels
+    let mut ended = false;
+    if c.end != End::None && closes_done {
+        ended = true;
+        match c.end {
+            End::LocalClose(side) => { if side == 0 { a.sctp.close() } else { b.sctp.close() } }
+            End::Inject(side, t) => {
+                let (ep, peer) = if side == 0 { (&a, &b) } else { (&b, &a) };
+                let _ = ep.in_tx.send(control_packet(peer.port, ep.port, ep.sctp.verif_snapshot().local_tag, t));
+            }
+            End::None => {}
+        }
+        let t1 = Instant::now();
+        while t1.elapsed() < Duration::from_millis(60) {
+            for side in 0..2 {
+                loop {
+                    let pkt = { let ep = if side == 0 { &mut a } else { &mut b }; ep.out_rx.try_recv() };
+                    let Ok(pkt) = pkt else { break };
+                    for p in link.forward(side, pkt) { let peer = if side == 0 { &b } else { &a }; let _ = peer.in_tx.send(p); }
+                }
+            }
+            tokio::time::sleep(Duration::from_millis(1)).await;
+        }
+    }
     a.adopt_new();
     b.adopt_new();
     a.drain_events();
@@ -450,5 +509,5 @@ pub async fn run_case(c: &Case, port_base: u16) -> Outcome {
     a.shutdown();
     b.shutdown();
     Outcome { traces, wire: link.wire, events, snaps, chans_final, faults_used: link.used, send_errors: send_errors.lock().clone(),
-        elapsed_ms: t0.elapsed().as_millis(), connected }
+        elapsed_ms: t0.elapsed().as_millis(), connected, ended }
 }
